@@ -330,7 +330,15 @@ def eval_c06(case):
     clauses = captured["clauses"]
     n_bool = max([abs(l) for c in clauses for l in c] + [max(max(v.bool_vars.values()) for v in vs.values())])
     if n_bool > 26:
-        return viol, {"skipped": f"{n_bool} booleans: beyond the all-SAT bound", "n_ref": len(ref)}
+        # beyond the all-SAT bound: project the CNF on the named variables with z3, one box point at a time
+        from checks import cp_round2 as R
+        acc, eo = R.accepted_set(desc, vs, clauses)
+        if acc is None:
+            return viol, {"skipped": f"{n_bool} booleans: beyond the all-SAT bound, box beyond the projection bound", "n_ref": len(ref)}
+        v2, _ = R.judge_c06_projection(desc, acc, eo)
+        if bool(acc) != bool(ref) and not v2:
+            v2.append(("C06/SATEncoder/ensures:cnf-satisfiable-iff-cp-satisfiable", f"CNF accepts {len(acc)} assignments, CP solutions {len(ref)}"))
+        return viol + v2, {"n_ref": len(ref), "n_models": len(acc), "n_bool": n_bool, "n_clauses": len(clauses), "projected_with_z3": True}
     try:
         models = all_sat(clauses, n_bool)
     except OverflowError:
